@@ -28,7 +28,7 @@ from __future__ import annotations
 
 import ast
 
-from ..astutil import attr_chain, callee_name, calls, handler_types, is_self_attr, text
+from ..astutil import attr_chain, callee_name, calls, handler_types, is_self_attr, text, is_name
 from ..core import Result
 from ..engines import hnd
 from ..model import AnchorMissing, Repo, walk_no_nested
@@ -139,22 +139,109 @@ def run(repo: Repo) -> Result:
         raise AnchorMissing(f"only {n_tags} Tag subclasses found")
     # direct Tag.parse calls elsewhere: `<something>.parse(stream)` where the receiver is a tag
     # registry lookup (tags[...] / tags.get(...)): must be get_node instead
+    # Every `get_node` dispatch of the parser module is *protected*: lexically inside a try whose
+    # LiquidError handler routes to env.error, or inside a helper / closure all of whose call
+    # sites are protected (followed through `x = self._factory()` ... `x(stream)` and plain helper
+    # calls, depth <= 3).  Both parser loops must reach at least one such dispatch.
+    import copy as _copy
+
+    from ..normalize import NFunc, propagate_aliases
+
+    def A(f):
+        return NFunc(f, propagate_aliases(_copy.deepcopy(f.node)))
+
+    pmod = repo.module("liquid.parser")
+    pfuncs = [A(f) for f in repo.all_functions() if f.module is pmod and f.parent is None]
+
+    def nested_defs(node):
+        return [n for n in ast.walk(node) if isinstance(n, (ast.FunctionDef, ast.AsyncFunctionDef)) and n is not node]
+
+    def lex_protected(owner_node, call) -> bool:
+        for _try, hs in hnd.enclosing_try_handlers(owner_node, call):
+            for h in hs:
+                if H.catches(handler_types(h), "LiquidError"):
+                    return routes_without_raise(h)
+        return False
+
+    def innermost_def(top, call):
+        """the innermost (nested) def of ``top`` that contains ``call``"""
+        best = top
+        for d in nested_defs(top):
+            if any(x is call for x in ast.walk(d)):
+                if best is top or any(x is d for x in ast.walk(best)):
+                    best = d
+        return best
+
+    def call_sites_of(defnode, top):
+        """call sites of a helper: [(top-level function node, call)]"""
+        sites = []
+        name = defnode.name
+        is_nested = defnode is not top
+        if is_nested:
+            # returned by its parent (a factory)?  then follow `x = <parent>(...)` ... `x(...)`
+            returned = any(isinstance(r, ast.Return) and is_name(r.value, name) for r in ast.walk(top))
+            for g in pfuncs:
+                for c in calls(g.node, nested=True):
+                    if is_name(c.func, name) and any(x is c for x in ast.walk(top)):
+                        sites.append((g.node, c))
+                if returned:
+                    for st in ast.walk(g.node):
+                        if isinstance(st, ast.Assign) and len(st.targets) == 1 and isinstance(st.targets[0], ast.Name) and isinstance(st.value, ast.Call) and callee_name(st.value) == top.name:
+                            var = st.targets[0].id
+                            for c in calls(g.node, nested=True):
+                                if is_name(c.func, var):
+                                    sites.append((g.node, c))
+        else:
+            for g in pfuncs:
+                for c in calls(g.node, nested=True):
+                    if callee_name(c) == name and c is not None and not any(x is c for x in ast.walk(defnode)):
+                        sites.append((g.node, c))
+        return sites
+
+    def protected(top, call, depth=0) -> bool:
+        owner = innermost_def(top, call)
+        if lex_protected(owner, call) or (owner is not top and lex_protected(top, call)):
+            return True
+        if depth >= 3:
+            return False
+        sites = call_sites_of(owner, top)
+        return bool(sites) and all(protected(t2, c2, depth + 1) for t2, c2 in sites)
+
+    n_dispatch = 0
+    for g in pfuncs:
+        for c in calls(g.node, nested=True):
+            if callee_name(c) == "get_node":
+                n_dispatch += 1
+                res.ob(f"{g.qual}:{text(c)[:60]}")
+                if not protected(g.node, c):
+                    res.add("C03-ROUTE", g.qual, "get_node:unwrapped", f"{g.qual}: `{text(c)[:80]}` is not (and none of its callers is) inside a try/except LiquidError that routes to env.error — in lax mode the error would escape", g.file, c.lineno)
+            if callee_name(c) == "parse" and isinstance(c.func, ast.Attribute) and not is_self_attr(c.func) and text(c.func.value) not in ("self", "parser") and ("tags" in text(c.func.value) or "tag" == text(c.func.value)):
+                res.ob(f"{g.qual}:direct-parse")
+                res.add("C03-ROUTE", g.qual, "direct-parse", f"{g.qual} calls `{text(c)[:60]}` directly instead of get_node", g.file, c.lineno)
+    if n_dispatch < 2:
+        raise AnchorMissing(f"liquid.parser: only {n_dispatch} get_node dispatch calls found")
     for fq in ("liquid.parser.Parser._parse", "liquid.parser.Parser.parse_block"):
-        fn = repo.func(fq)
-        gcalls = [c for c in calls(fn.node) if callee_name(c) == "get_node"]
-        if len(gcalls) < 5:
-            res.add("C03-ROUTE", fn.qual, "get_node-count", f"{fn.qual}: expected >= 5 get_node dispatch calls, found {len(gcalls)}", fn.file, fn.line)
-        for c in gcalls:
-            check_wrapped(fn, c, "get_node")
-        for c in calls(fn.node):
-            if callee_name(c) == "parse" and not is_self_attr(c.func):
-                res.ob(f"{fn.qual}:direct-parse")
-                res.add("C03-ROUTE", fn.qual, "direct-parse", f"{fn.qual} calls `{text(c)[:60]}` directly instead of get_node", fn.file, c.lineno)
+        fn = A(repo.func(fq))
+        res.ob(f"{fq}:dispatches")
+        # the loop reaches a dispatch: directly, through a helper of the module, or through a closure
+        reach = any(callee_name(c) == "get_node" for c in calls(fn.node, nested=True))
+        if not reach:
+            local_callables = {st.targets[0].id for st in ast.walk(fn.node) if isinstance(st, ast.Assign) and len(st.targets) == 1 and isinstance(st.targets[0], ast.Name) and isinstance(st.value, ast.Call)}
+            for c in calls(fn.node, nested=True):
+                tgt = None
+                if is_name(c.func, c.func.id if isinstance(c.func, ast.Name) else "") and c.func.id in local_callables:
+                    reach = reach or any(callee_name(x) == "get_node" for g in pfuncs for x in calls(g.node, nested=True))
+                nm = callee_name(c)
+                for g in pfuncs:
+                    if g.name == nm and any(callee_name(x) == "get_node" for x in calls(g.node, nested=True)):
+                        reach = True
+        if not reach:
+            res.add("C03-ROUTE", fq, "get_node-count", f"{fq}: no get_node dispatch is reachable from the loop", fn.file, fn.line)
     for fq in (
         "liquid.template.BoundTemplate.render_with_context",
         "liquid.template.BoundTemplate.render_with_context_async",
     ):
-        fn = repo.func(fq)
+        fn = A(repo.func(fq))
         rcalls = [c for c in calls(fn.node) if callee_name(c) in ("render", "render_async", "render_to_output", "render_to_output_async")]
         if not rcalls:
             res.ob(fn.qual)
@@ -174,7 +261,7 @@ def run(repo: Repo) -> Result:
         "liquid.parser.Parser.parse",
     ):
         try:
-            fn = repo.func(fq)
+            fn = A(repo.func(fq))
         except AnchorMissing:
             continue
         res.ob(f"{fn.qual}:raises-routed")
